@@ -91,3 +91,17 @@ async fn c_no_send_borrowed<'a>(deps: &'a App, a: &'a std::rc::Rc<str>) -> &'a s
     a
 }
 pub struct LocalApp(pub std::rc::Rc<u8>);
+
+// trait objects are concrete dependency types: the trait is implemented for `dyn Trait` itself
+#[entrait(CDyn)]
+fn c_dyn(deps: &dyn core::any::Any, a: i32) -> i32 {
+    a
+}
+#[entrait(CDynAuto)]
+fn c_dyn_auto(deps: &(dyn core::fmt::Debug + Send + Sync), a: i32) -> i32 {
+    a
+}
+#[entrait(CDynAsync)]
+async fn c_dyn_async(deps: &(dyn core::fmt::Debug + Send + Sync), a: i32) -> i32 {
+    a
+}
